@@ -3,7 +3,7 @@
 # Confirms, in the scratch worktree: the patch applies, the pinned suite passes with it,
 # the demonstration fails with it and passes without it.
 set -u
-ID=$1; shift; W=/tmp/seed-$ID
+ID=$1; shift; W=${SEEDDIR:-/tmp/seed-$ID}
 export GOFLAGS=-mod=mod GOPROXY=off GOSUMDB=off GOTOOLCHAIN=local CGO_ENABLED=1 TZ=UTC
 cd $W || exit 2
 [ -s SEED/patch.diff ] || { echo "no patch"; exit 2; }
